@@ -370,6 +370,12 @@ class CallMixin:
         return simp(z_and(self.num_cmp(ast.Eq(), a.n, b.n),
                           z_implies(z_and(j >= 0, self.num_cmp(ast.Lt(), j, a.n)), eq)))
 
+    def b_spec_intstr(self, args, kws, st, node):
+        v = args[0]
+        if not is_z3(v):
+            return str(int(v))
+        return IntStr(trunc_int(v))
+
     def b_spec_hash_elems(self, args, kws, st, node):
         if not isinstance(args[0], HashV):
             raise OutOfReach("hash_elems of a non-hash")
@@ -631,6 +637,8 @@ class CallMixin:
             m = st.obj(v).cls.find_method("__str__")
             if m is not None:
                 return self.call_func(FuncRef(m), [v], {}, st, node)
+        if is_z3(v) and z3.is_int(v):
+            return IntStr(v)
         if hasattr(self, "sym_str"):
             return self.sym_str(v, st)
         return Opaque("str()")
